@@ -130,6 +130,9 @@ func checkMethod(t *testing.T, b *rt.Built, s *m.Service, meth *m.Method) bool {
 }
 
 func record(d *m.Design, meth *m.Method, c *caseRec) {
+	if strings.Contains(c.Result.Canon(), "union(") {
+		stats.Class("result-has-union")
+	}
 	r := oracle.SelectResponse(d, meth, c.Result)
 	tagged := r != nil && r.TagName != ""
 	locs := map[string]bool{}
